@@ -11,6 +11,7 @@ import (
 	"encoding/json"
 	"fmt"
 	"io"
+	"math"
 	"math/bits"
 	"net/http"
 	"net/http/httptest"
@@ -60,6 +61,14 @@ func verifC10Files() [][]byte {
 			ggml.WriteGGUF(verifMemWS{&vb}, kv, []ggml.Tensor{{Name: "blk.0.attn_q.weight", Kind: 0, Shape: []uint64{2, 2}, WriterTo: bytes.NewReader(make([]byte, 16))}})
 			files = append(files, vb.Bytes())
 		}
+	}
+	// well-formed files whose float metadata is not a number JSON can carry (NaN, +-Inf): show returns the metadata as JSON
+	for _, fbits := range []uint32{0x7fc00000, 0x7f800000, 0xff800000, 0x7f800001} {
+		var vb bytes.Buffer
+		ggml.WriteGGUF(verifMemWS{&vb}, ggml.KV{"general.architecture": "llama", "llama.block_count": uint32(1), "llama.rope.freq_base": math.Float32frombits(fbits),
+			"llama.rope.scales": []float32{1, math.Float32frombits(fbits)}, "tokenizer.ggml.tokens": []string{"a"}},
+			[]ggml.Tensor{{Name: "blk.0.attn_q.weight", Kind: 0, Shape: []uint64{2, 2}, WriterTo: bytes.NewReader(make([]byte, 16))}})
+		files = append(files, vb.Bytes())
 	}
 	for _, kind := range []string{"adapter", "projector", "model", ""} {
 		var vb bytes.Buffer
@@ -330,6 +339,19 @@ func TestVerifC10API(t *testing.T) {
 				out.Count("api_multi_model_files")
 				out.Count("api_multi_" + strings.Fields(impl)[0])
 			}
+		}
+		if r.mode == "createfrom" || r.mode == "show" {
+			// L1: the answer of the two handlers that decode an INSTALLED model vs the model (Model/GgufApi.lean createFrom / showModel)
+			impl := strings.Fields(r.res)[0]
+			switch {
+			case strings.HasPrefix(r.res, r.mode+"=200 error=false"):
+				impl = "ok"
+			case strings.HasPrefix(r.res, r.mode+"=") && strings.Contains(r.res, "error=true"):
+				impl = "err"
+			case strings.HasPrefix(r.res, "hang"):
+				impl = "loop"
+			}
+			out.Case(fmt.Sprintf("gguf-%s %s", strings.TrimPrefix(r.mode, "create"), zzverif.Hex(files[r.idx])), impl)
 		}
 		fmt.Fprintf(os.Stderr, "c10-api %s #%d: %s\n", r.mode, r.idx, r.res)
 	}
